@@ -38,9 +38,17 @@ KINDS = ["white", "red", "alpha", "pink"]
 
 
 def budget(tier):
+    # some workers run with the Numba JIT disabled (interpreted kernels / any pure-Python fallback the library may have)
+    variants = [{}] * 7 + [{"NUMBA_DISABLE_JIT": "1"}]
     if tier == "thorough":
-        return {"n": 400000, "wall_s": 900, "workers": 16, "selftest": 48}
-    return {"n": 4800, "wall_s": 50, "workers": 16, "selftest": 6}
+        return {"n": 400000, "wall_s": 900, "workers": 16, "selftest": 48, "env_variants": variants}
+    return {"n": 4800, "wall_s": 50, "workers": 16, "selftest": 6, "env_variants": variants}
+
+
+def _nojit():
+    import os
+
+    return os.environ.get("NUMBA_DISABLE_JIT") == "1"
 
 
 def prime():
@@ -129,6 +137,8 @@ def generate(seed, tier):
         spec["mode"] = mode
         nops = rw.randrange(2, 14)
         ops = []
+        if spec.get("fmin") is not None and spec["fmin"] < spec["fs"] * 2e-5 and mode == "series" and rw.random() < 0.5:
+            ops.append(["series", rw.choice([131072, 200000, 262144])])       # one long block on a long-memory band
         for _ in range(nops):
             if mode == "series" or (mode == "mixed" and rw.random() < 0.5):
                 ops.append(["series", _gen_n(rw)])
@@ -167,6 +177,11 @@ def generate(seed, tier):
         kind, n = per[g][cursors[g]]
         cursors[g] += 1
         ops.append([kind, g, n])
+    # a fork in the middle of a get_sample run: the child continues the stream (rare; POSIX only)
+    if rw.random() < 0.02:
+        cand = [g for g, sp in enumerate(gens) if sp["mode"] == "samples"]
+        if cand:
+            ops.append(["fork_samples", rw.choice(cand), rw.choice([1, 5, 300])])
     sc = {"gens": gens, "ops": ops, "initially_alive": [not c for c in created_late]}
     # same seed in a *fresh interpreter* (other hash salt): rarely in quick (a subprocess costs ~2 s), often in thorough
     cousins = [g for g, sp in enumerate(gens) if "cousin_of" in sp]
@@ -299,6 +314,11 @@ def execute(sc, out):
         kind, g, n = op
         if g >= ng or inst[g] is None or dead[g]:
             continue
+        if _nojit() and n > 20000:
+            n = 20000 + (n % 7)          # interpreted kernels: keep the long requests affordable
+        if kind == "fork_samples":
+            _fork_samples(inst[g], gens[g], n, got[g], hist[g], out)
+            continue
         if last_g is not None and last_g != g:
             out.count("instances_interleaved")
         last_g = g
@@ -407,6 +427,51 @@ else:
     g = noise.pink_noise(spec["fs"], spec["fmin"], spec["fmax"], init_filter=spec["init"], seed=spec["seed"])
 sys.stdout.buffer.write(np.asarray(g.get_series(int(sys.argv[2])), dtype=np.float64).tobytes())
 """
+
+
+def _fork_samples(gen, spec, m, got_g, hist_g, out):
+    """os.fork() in the middle of a get_sample run: the child's next m samples must be the continuation of the stream,
+    i.e. equal to the parent's own next m samples."""
+    import os
+    import struct
+
+    if not hasattr(os, "fork"):
+        return
+    r_fd, w_fd = os.pipe()
+    try:
+        pid = os.fork()
+    except OSError:
+        os.close(r_fd); os.close(w_fd)
+        return
+    if pid == 0:
+        code = 0
+        try:
+            os.close(r_fd)
+            vals = [float(gen.get_sample()) for _ in range(m)]
+            os.write(w_fd, struct.pack("<%dd" % m, *vals))
+        except BaseException:
+            code = 3
+        finally:
+            os._exit(code)
+    os.close(w_fd)
+    data = b""
+    while True:
+        chunk = os.read(r_fd, 65536)
+        if not chunk:
+            break
+        data += chunk
+    os.close(r_fd)
+    _, status = os.waitpid(pid, 0)
+    mine = np.array([gen.get_sample() for _ in range(m)], dtype=np.float64)
+    got_g.append(mine)
+    hist_g.append(("samples", m))
+    out.count("fork_in_sample_run")
+    if status != 0 or len(data) != 8 * m:
+        out.violate("exception", spec["kind"], f"forked child failed to continue the get_sample run (status {status}, {len(data)} bytes)")
+        return
+    child = np.frombuffer(data, dtype="<f8")
+    if child.tobytes() != mine.tobytes():
+        out.violate("fork_child_stream_differs", spec["kind"], f"after os.fork() the child's next {m} get_sample() values differ from the parent's: {_first_diff(mine, child)}")
 
 
 def _cross_process_check(sc, g, out):
